@@ -4447,6 +4447,9 @@ class PyCdlib:
         if not utils.file_object_supports_binary(fp):
             raise pycdlibexception.PyCdlibInvalidInput('The fp argument must be in binary mode')
 
+        if length < 0:
+            raise pycdlibexception.PyCdlibInvalidInput('The length of the file must not be negative')
+
         num_bytes_to_add = self._add_fp(fp, length, False, iso_path, rr_name,
                                         joliet_path, udf_path, file_mode, False)
 
